@@ -6,6 +6,7 @@ import (
 	"fmt"
 	"go/token"
 	"go/types"
+	"sort"
 	"strings"
 
 	"golang.org/x/tools/go/ssa"
@@ -2178,4 +2179,58 @@ func isFieldLoadThrough(v ssa.Value, fr FieldRef) bool {
 		okAll = false
 	}
 	return okAll && n > 0
+}
+
+// ruleCancelDoesNotWait (C07.14): cancelling an RPC does not queue behind a sender stuck in the transport.
+func ruleCancelDoesNotWait(c *Ctx, rule string) {
+	c.rule(rule, "cancel does not wait: on the way to the finishing function the client's cancel-stream function acquires no mutex that the send method holds across its (blocking) hand-over to the sender — the context watcher would otherwise sit behind a SendMsg whose frame is stuck in the transport, the RPC would not end at the caller and no cancel frame would go out")
+	w := c.W
+	a := w.Anchors()
+	lf := w.Locks()
+	if !c.need(rule, "CancelStream", a.CancelStream) || !c.need(rule, "ClientFinish", a.ClientFinish) || !c.need(rule, "ClientSend", a.ClientSend) {
+		return
+	}
+	long := map[string]bool{}
+	for _, s := range c.senderSendSites() {
+		if s.Parent() == a.ClientSend || w.ownedBy(s.Parent(), a.ClientSend) {
+			for _, l := range perStreamLocks(lf.MustAt(s.(ssa.Instruction)), a.CS) {
+				long[l] = true
+			}
+		}
+	}
+	var names []string
+	for l := range long {
+		names = append(names, l)
+	}
+	sort.Strings(names)
+	c.floor(rule, len(names), 1, "client-stream mutexes held across the hand-over to the sender")
+	var fin ssa.Instruction
+	allInstrs(a.CancelStream, func(in ssa.Instruction) {
+		if ci, ok := in.(ssa.CallInstruction); ok && w.sameFn(staticCallee(ci), a.ClientFinish) && fin == nil {
+			fin = in
+		}
+	})
+	if fin == nil {
+		c.fail(rule, w.Short(a.CancelStream)+": calls the finishing function", posOf(w, a.CancelStream), "the cancel-stream function does not call the finishing function")
+		return
+	}
+	var waits ssa.Instruction
+	allInstrs(a.CancelStream, func(in ssa.Instruction) {
+		ci, ok := in.(*ssa.Call)
+		if !ok {
+			return
+		}
+		op, isOp := lockOpOf(ci)
+		if !isOp || (op.kind != "lock" && op.kind != "rlock") || !long[op.id] {
+			return
+		}
+		if dominates(in, fin) || reaches(in, fin) {
+			waits = in
+		}
+	})
+	at := w.At(fin)
+	if waits != nil {
+		at = w.At(waits)
+	}
+	c.check(waits == nil, rule, w.Short(a.CancelStream)+": reaches the finishing function without taking a sender-side mutex", at, "no acquisition of "+strings.Join(names, ", ")+" before finishing", "the cancel path locks a mutex that SendMsg holds while its frame is handed to the (possibly stalled) transport: cancelling the RPC's context then does not end the RPC at the caller until the peer reads again — RecvMsg stays blocked and the cancel frame is never queued")
 }
